@@ -64,6 +64,23 @@ static mut RUNTIME: Option<&'static dyn Runtime> = None;
 
 thread_local! {
     static AGENT: Cell<bool> = Cell::new(false);
+    static QUIET: Cell<usize> = Cell::new(0);
+}
+
+/// While a `Quiet` exists on this thread, shared-memory operations are not
+/// scheduling points (used by the destructors that run when the last handle
+/// goes away: nobody else can observe the queue any more). Events are still reported.
+pub struct Quiet;
+
+pub fn quiet() -> Quiet {
+    QUIET.with(|q| q.set(q.get() + 1));
+    Quiet
+}
+
+impl Drop for Quiet {
+    fn drop(&mut self) {
+        QUIET.with(|q| q.set(q.get() - 1));
+    }
 }
 
 /// Install (or remove) the runtime. Must not race with running agents.
@@ -78,6 +95,14 @@ pub fn set_agent(on: bool) {
 
 #[inline]
 fn rt() -> Option<&'static dyn Runtime> {
+    if QUIET.with(|q| q.get()) > 0 {
+        return None;
+    }
+    rt_ev()
+}
+
+#[inline]
+fn rt_ev() -> Option<&'static dyn Runtime> {
     unsafe {
         match RUNTIME {
             Some(r) if AGENT.with(|a| a.get()) => Some(r),
@@ -88,14 +113,14 @@ fn rt() -> Option<&'static dyn Runtime> {
 
 /// Report an allocation made through `alloc::allocate`.
 pub fn note_alloc(addr: usize, bytes: usize, name: &'static str) {
-    if let Some(r) = rt() {
+    if let Some(r) = rt_ev() {
         r.event(EvKind::Alloc, addr, bytes, name);
     }
 }
 
 /// Report a deallocation made through `alloc::deallocate`.
 pub fn note_dealloc(addr: usize, bytes: usize, name: &'static str) {
-    if let Some(r) = rt() {
+    if let Some(r) = rt_ev() {
         r.event(EvKind::Dealloc, addr, bytes, name);
     }
 }
